@@ -280,7 +280,7 @@ pub fn run(ctx: &mut Ctx) {
     ];
     let seed = ctx.seed;
     let thorough = ctx.tier == Tier::Thorough;
-    let cases = ctx.tier.pick(15_000u32, 400_000);
+    let cases = ctx.tier.pick(30_000u32, 400_000);
     let nthreads = ctx.threads as u32;
     ctx.parallel(|ti, _n, st| {
         let f = run_proptest(history_strategy(), cases / nthreads + 1, seed ^ 0xC09 ^ ((ti as u64) << 36), st, |h, st| run_one(h, st, "history"));
